@@ -120,6 +120,8 @@ def compare_case(cfg, req, impl_line, model_line):
     for name, v in M.items():
         if name.startswith('agree.') and matches(name, cfg.get('model_fields', [])) and v != '1':
             res['model'].append({'field': name, 'impl': I.get(name[6:], '')[:600], 'model': v[:600]})
+    if 'abort' in I:
+        res['impl'].append({'field': 'abort', 'impl': I['abort'][:300], 'expected': 'a value or an error (the process must survive the call)'})
     for chk in cfg.get('impl_checks', []):
         name, want = chk
         if name in I and I[name] != want:
